@@ -1150,6 +1150,39 @@ func (e *Entry) Augment(addErrors bool) (processed, skipped int) {
 	return processed, skipped
 }
 
+// An orderedDeviate is one deviate statement of a deviation: its type and the
+// entry holding its arguments.
+type orderedDeviate struct {
+	dt   deviationType
+	spec *Entry
+}
+
+// deviatesInOrder returns the deviate statements of d in the order in which
+// they were written. Entry.Deviate groups them by type, so the written order
+// is recovered from the deviation's AST node; the entries of one type were
+// appended in that order.
+func (d *DeviatedEntry) deviatesInOrder() []orderedDeviate {
+	var ods []orderedDeviate
+	if n, ok := d.Node.(*Deviation); ok {
+		next := map[deviationType]int{}
+		for _, sd := range n.Deviate {
+			dt, ok := toDeviation[sd.Statement().Argument]
+			if !ok || next[dt] >= len(d.Deviate[dt]) {
+				continue
+			}
+			ods = append(ods, orderedDeviate{dt, d.Deviate[dt][next[dt]]})
+			next[dt]++
+		}
+		return ods
+	}
+	for _, dt := range []deviationType{DeviationUnset, DeviationNotSupported, DeviationAdd, DeviationReplace, DeviationDelete} {
+		for _, spec := range d.Deviate[dt] {
+			ods = append(ods, orderedDeviate{dt, spec})
+		}
+	}
+	return ods
+}
+
 // ApplyDeviate walks the deviations within the supplied entry, and applies them to the
 // schema.
 func (e *Entry) ApplyDeviate(deviateOpts ...DeviateOpt) []error {
@@ -1162,121 +1195,120 @@ func (e *Entry) ApplyDeviate(deviateOpts ...DeviateOpt) []error {
 			continue
 		}
 
-		for dt, dv := range d.Deviate {
-			for _, devSpec := range dv {
-				switch dt {
-				case DeviationAdd, DeviationReplace:
-					if devSpec.Config != TSUnset {
-						deviatedNode.Config = devSpec.Config
-					}
+		for _, od := range d.deviatesInOrder() {
+			dt, devSpec := od.dt, od.spec
+			switch dt {
+			case DeviationAdd, DeviationReplace:
+				if devSpec.Config != TSUnset {
+					deviatedNode.Config = devSpec.Config
+				}
 
-					if len(devSpec.Default) > 0 {
-						switch dt {
-						case DeviationAdd:
-							switch {
-							case deviatedNode.IsLeafList():
-								deviatedNode.Default = append(deviatedNode.Default, devSpec.Default...)
-							case len(devSpec.Default) > 1:
-								appendErr(fmt.Errorf("%s: tried to add more than one default to a non-leaflist entry at deviation", Source(e.Node)))
-							case len(deviatedNode.Default) != 0:
-								appendErr(fmt.Errorf("%s: tried to add a default value to an entry that already has a default value", Source(e.Node)))
-							case len(devSpec.Default) == 1 && len(deviatedNode.Default) == 0:
-								deviatedNode.Default = append([]string{}, devSpec.Default[0])
-							}
-						case DeviationReplace:
-							deviatedNode.Default = append([]string{}, devSpec.Default...)
-						}
-					}
-
-					if devSpec.Mandatory != TSUnset {
-						deviatedNode.Mandatory = devSpec.Mandatory
-					}
-
-					if devSpec.deviatePresence.hasMinElements {
-						if !deviatedNode.IsList() && !deviatedNode.IsLeafList() {
-							appendErr(fmt.Errorf("tried to deviate min-elements on a non-list type %s", deviatedNode.Kind))
-							continue
-						}
-						deviatedNode.ListAttr.MinElements = devSpec.ListAttr.MinElements
-					}
-
-					if devSpec.deviatePresence.hasMaxElements {
-						if !deviatedNode.IsList() && !deviatedNode.IsLeafList() {
-							appendErr(fmt.Errorf("tried to deviate max-elements on a non-list type %s", deviatedNode.Kind))
-							continue
-						}
-						deviatedNode.ListAttr.MaxElements = devSpec.ListAttr.MaxElements
-					}
-
-					if devSpec.Units != "" {
-						deviatedNode.Units = devSpec.Units
-					}
-
-					if devSpec.Type != nil {
-						deviatedNode.Type = devSpec.Type
-					}
-
-				case DeviationNotSupported:
-					dp := deviatedNode.Parent
-					if dp == nil {
-						appendErr(fmt.Errorf("%s: node %s does not have a valid parent, but deviate not-supported references one", Source(e.Node), e.Name))
-						continue
-					}
-					if !hasIgnoreDeviateNotSupported(deviateOpts) {
-						dp.delete(deviatedNode.Name)
-					}
-				case DeviationDelete:
-					if devSpec.Config != TSUnset {
-						deviatedNode.Config = TSUnset
-					}
-
-					if len(devSpec.Default) > 0 {
+				if len(devSpec.Default) > 0 {
+					switch dt {
+					case DeviationAdd:
 						switch {
 						case deviatedNode.IsLeafList():
-							// It is unclear from RFC7950 on how deviate delete works
-							// when there are duplicate leaf-list values in config-false leafs.
-							// TODO(wenbli): Add support for deleting default values when the leaf-list is a config leaf (duplicates are not allowed).
-							appendErr(fmt.Errorf("%s: deviate delete on default statements unsupported for leaf-lists, please use replace instead", Source(e.Node)))
-						case len(deviatedNode.Default) == 0:
-							appendErr(fmt.Errorf("%s: tried to deviate delete a default statement that doesn't exist", Source(e.Node)))
-						case devSpec.Default[0] != deviatedNode.Default[0]:
-							appendErr(fmt.Errorf("%s: tried to deviate delete a default statement with a non-matching keyword", Source(e.Node)))
-						default:
-							deviatedNode.Default = nil
+							deviatedNode.Default = append(deviatedNode.Default, devSpec.Default...)
+						case len(devSpec.Default) > 1:
+							appendErr(fmt.Errorf("%s: tried to add more than one default to a non-leaflist entry at deviation", Source(e.Node)))
+						case len(deviatedNode.Default) != 0:
+							appendErr(fmt.Errorf("%s: tried to add a default value to an entry that already has a default value", Source(e.Node)))
+						case len(devSpec.Default) == 1 && len(deviatedNode.Default) == 0:
+							deviatedNode.Default = append([]string{}, devSpec.Default[0])
 						}
+					case DeviationReplace:
+						deviatedNode.Default = append([]string{}, devSpec.Default...)
 					}
-
-					if devSpec.Mandatory != TSUnset {
-						deviatedNode.Mandatory = TSUnset
-					}
-
-					if devSpec.deviatePresence.hasMinElements {
-						if !deviatedNode.IsList() && !deviatedNode.IsLeafList() {
-							appendErr(fmt.Errorf("tried to deviate min-elements on a non-list type %s", deviatedNode.Kind))
-							continue
-						}
-						if deviatedNode.ListAttr.MinElements != devSpec.ListAttr.MinElements {
-							// Argument value must match:
-							// https://tools.ietf.org/html/rfc7950#section-7.20.3.2
-							appendErr(fmt.Errorf("min-element value %d differs from deviation's min-element value %d for entry %v", devSpec.ListAttr.MinElements, deviatedNode.ListAttr.MinElements, d.DeviatedPath))
-						}
-						deviatedNode.ListAttr.MinElements = 0
-					}
-
-					if devSpec.deviatePresence.hasMaxElements {
-						if !deviatedNode.IsList() && !deviatedNode.IsLeafList() {
-							appendErr(fmt.Errorf("tried to deviate max-elements on a non-list type %s", deviatedNode.Kind))
-							continue
-						}
-						if deviatedNode.ListAttr.MaxElements != devSpec.ListAttr.MaxElements {
-							appendErr(fmt.Errorf("max-element value %d differs from deviation's max-element value %d for entry %v", devSpec.ListAttr.MaxElements, deviatedNode.ListAttr.MaxElements, d.DeviatedPath))
-						}
-						deviatedNode.ListAttr.MaxElements = math.MaxUint64
-					}
-
-				default:
-					appendErr(fmt.Errorf("invalid deviation type %s", dt))
 				}
+
+				if devSpec.Mandatory != TSUnset {
+					deviatedNode.Mandatory = devSpec.Mandatory
+				}
+
+				if devSpec.deviatePresence.hasMinElements {
+					if !deviatedNode.IsList() && !deviatedNode.IsLeafList() {
+						appendErr(fmt.Errorf("tried to deviate min-elements on a non-list type %s", deviatedNode.Kind))
+						continue
+					}
+					deviatedNode.ListAttr.MinElements = devSpec.ListAttr.MinElements
+				}
+
+				if devSpec.deviatePresence.hasMaxElements {
+					if !deviatedNode.IsList() && !deviatedNode.IsLeafList() {
+						appendErr(fmt.Errorf("tried to deviate max-elements on a non-list type %s", deviatedNode.Kind))
+						continue
+					}
+					deviatedNode.ListAttr.MaxElements = devSpec.ListAttr.MaxElements
+				}
+
+				if devSpec.Units != "" {
+					deviatedNode.Units = devSpec.Units
+				}
+
+				if devSpec.Type != nil {
+					deviatedNode.Type = devSpec.Type
+				}
+
+			case DeviationNotSupported:
+				dp := deviatedNode.Parent
+				if dp == nil {
+					appendErr(fmt.Errorf("%s: node %s does not have a valid parent, but deviate not-supported references one", Source(e.Node), e.Name))
+					continue
+				}
+				if !hasIgnoreDeviateNotSupported(deviateOpts) {
+					dp.delete(deviatedNode.Name)
+				}
+			case DeviationDelete:
+				if devSpec.Config != TSUnset {
+					deviatedNode.Config = TSUnset
+				}
+
+				if len(devSpec.Default) > 0 {
+					switch {
+					case deviatedNode.IsLeafList():
+						// It is unclear from RFC7950 on how deviate delete works
+						// when there are duplicate leaf-list values in config-false leafs.
+						// TODO(wenbli): Add support for deleting default values when the leaf-list is a config leaf (duplicates are not allowed).
+						appendErr(fmt.Errorf("%s: deviate delete on default statements unsupported for leaf-lists, please use replace instead", Source(e.Node)))
+					case len(deviatedNode.Default) == 0:
+						appendErr(fmt.Errorf("%s: tried to deviate delete a default statement that doesn't exist", Source(e.Node)))
+					case devSpec.Default[0] != deviatedNode.Default[0]:
+						appendErr(fmt.Errorf("%s: tried to deviate delete a default statement with a non-matching keyword", Source(e.Node)))
+					default:
+						deviatedNode.Default = nil
+					}
+				}
+
+				if devSpec.Mandatory != TSUnset {
+					deviatedNode.Mandatory = TSUnset
+				}
+
+				if devSpec.deviatePresence.hasMinElements {
+					if !deviatedNode.IsList() && !deviatedNode.IsLeafList() {
+						appendErr(fmt.Errorf("tried to deviate min-elements on a non-list type %s", deviatedNode.Kind))
+						continue
+					}
+					if deviatedNode.ListAttr.MinElements != devSpec.ListAttr.MinElements {
+						// Argument value must match:
+						// https://tools.ietf.org/html/rfc7950#section-7.20.3.2
+						appendErr(fmt.Errorf("min-element value %d differs from deviation's min-element value %d for entry %v", devSpec.ListAttr.MinElements, deviatedNode.ListAttr.MinElements, d.DeviatedPath))
+					}
+					deviatedNode.ListAttr.MinElements = 0
+				}
+
+				if devSpec.deviatePresence.hasMaxElements {
+					if !deviatedNode.IsList() && !deviatedNode.IsLeafList() {
+						appendErr(fmt.Errorf("tried to deviate max-elements on a non-list type %s", deviatedNode.Kind))
+						continue
+					}
+					if deviatedNode.ListAttr.MaxElements != devSpec.ListAttr.MaxElements {
+						appendErr(fmt.Errorf("max-element value %d differs from deviation's max-element value %d for entry %v", devSpec.ListAttr.MaxElements, deviatedNode.ListAttr.MaxElements, d.DeviatedPath))
+					}
+					deviatedNode.ListAttr.MaxElements = math.MaxUint64
+				}
+
+			default:
+				appendErr(fmt.Errorf("invalid deviation type %s", dt))
 			}
 		}
 	}
